@@ -2,7 +2,7 @@
 """dev helper: scratch copy of /repo with identifier OLD renamed to NEW everywhere (word-boundary), run all checks; prints non-zero exits"""
 import os, re, shutil, subprocess, sys, tempfile
 import concurrent.futures as cf
-ALL = ["C01", "C02", "C03", "C04", "C05", "C08", "C09", "C10", "C11", "C12", "C13", "C14", "C15", "C16", "C17", "C18", "C19", "C20"]
+ALL = ["C01", "C02", "C03", "C04", "C05", "C07", "C08", "C09", "C10", "C11", "C12", "C13", "C14", "C15", "C16", "C17", "C18", "C19", "C20"]
 def run(old, new):
     d = tempfile.mkdtemp(prefix="verif_ren_")
     try:
